@@ -5,6 +5,30 @@ ROOT = os.path.dirname(os.path.dirname(os.path.abspath(__file__)))
 ids = [json.loads(l)['id'] for l in open(os.path.join(ROOT, 'properties.jsonl'))]
 
 CLAIMED = {
+ 'C02': dict(
+   technique='runtime monitoring: round-trip identities evaluated on generated packets built through the public builders (boundary-biased generator, 4 SSO feature builds in thorough), every call under catch_unwind',
+   level='exploration',
+   text='About 1.3 M (quick) / 60 M (thorough) abstract packets over all 29 kinds x u16/u32 ids x optional fields x property sets x lengths around 127/128, 16383/16384, 65535, 2097151/2 and the SSO thresholds are built through the public builders; for each: size()==len, vectored==contiguous serialisation, Remaining Length on the wire, parse(own bytes)==packet with consumed==body, store-packet wrapper, and the v5 PUBLISH helper methods that recompute cached lengths. Directed packets hit every VBI boundary exactly. Quick also runs the sso-lv10 build; thorough all four SSO builds.',
+   note='Trusted: my generator only produces what the builders accept (builder rejections are counted in the evidence); Eq of library packets.',
+   design='DESIGN.md §4 C02'),
+ 'C03': dict(
+   technique='runtime monitoring: differential testing against an independently written reference encoder/decoder (refcodec.rs) + exhaustive byte enumeration of the numeric tables',
+   level='exploration',
+   text='Same packet domain as C02: library bytes == reference encoding byte for byte; the reference encoding parsed by the library and read back through every accessor == the abstract packet; the reference decoder reads the library bytes back to the same abstract packet. All 256 byte values of every reason-code enum and of PropertyId and the fixed-header nibbles are enumerated against tables transcribed from the OASIS texts.',
+   note='Trusted: the reference codec and tables are my reading of OASIS MQTT 3.1.1 / 5.0 (they share no code or constants with the library).',
+   design='DESIGN.md §4 C03'),
+ 'C04': dict(
+   technique='runtime monitoring: catch_unwind + overflow-checks build as panic sanitizer, self-consistency and rebuild-through-builder oracles over exhaustive short inputs, structure-aware mutation and random bytes',
+   level='exploration',
+   text='All 29 parsers x id widths: every body of length <= 2 (quick) / <= 3 (thorough) exhaustively (PUBLISH x 16 flag nibbles), 1.5 M / 120 M structure-aware mutations of valid encodings (length fields +-1/0/max, non-minimal and over-long VBIs, id 0, QoS 3, properties duplicated/removed/re-tagged, invalid UTF-8, truncation, insertion) and random bodies; every accepted packet must report size()==len(serialisation), re-parse to an equal packet, expose only valid UTF-8 and be accepted by the public builder of its kind when its accessor values are fed back. Standalone decoders included (VBI compared with a reference decoder).',
+   note='Trusted: rebuild oracle = builder acceptance of accessor values; bits that no accessor/builder can express are counted (noncanonical_accepted), not judged. Reads outside the input are panics in safe Rust (caught); the single unsafe block is covered by the UTF-8 re-validation monitor and by the Miri shards of the thorough tier.',
+   design='DESIGN.md §4 C04'),
+ 'C18': dict(
+   technique='runtime monitoring over an exhaustively enumerated finite table: reference acceptance table (MQTT 5.0 Table 2-4) vs builder path and parser path',
+   level='exploration',
+   text='All 1484 cells (27 property ids x 14 locations incl. will x count {1,2} x value classes incl. every forbidden value) are placed into a minimal valid carrier packet and run through the public builders and, reference-encoded, through the parsers; acceptance must equal the specification table on both paths. Exhaustive over the table.',
+   note='Trusted: my transcription of Table 2-4 (DESIGN Appendix C). Builder cells whose value no public constructor can express are counted as inexpressible.',
+   design='DESIGN.md §4 C18'),
  'C20': dict(
    technique='runtime monitoring: differential oracle (BTreeSet set model) + representation-invariant hook over exhaustive short operation sequences and long random sequences; every call under catch_unwind with overflow checks on',
    level='exploration',
